@@ -152,10 +152,12 @@ struct Rig {
 
 struct Outcome {
 	std::vector<std::string> q, q2;
+	// load leg: an explicit clean-up on a copy of the loaded model and on the loaded model after it was moved
+	std::vector<std::string> qCopy, qMoved;
 };
 
 // via explicit TrimTexturePaths (terrain flag cannot be set that way) or via Save + Load(options)
-Outcome clean(Rig& rig, const std::string& path, bool viaLoad, bool terrain) {
+Outcome clean(Rig& rig, const std::string& path, bool viaLoad, bool terrain, bool relocate = true) {
 	Outcome o;
 	Rig::set(rig.nif, rig.kind, path);
 	if (!viaLoad) {
@@ -169,6 +171,16 @@ Outcome clean(Rig& rig, const std::string& path, bool viaLoad, bool terrain) {
 		NifFile a;
 		if (loadFromString(a, bytes, terrain) != 0) return o;
 		o.q = Rig::get(a, rig.kind);
+		if (relocate) {
+			// cleaning a clean path changes nothing - also on a copy of the loaded model and after the model has been moved
+			NifFile c(a);
+			c.TrimTexturePaths();
+			o.qCopy = Rig::get(c, rig.kind);
+			NifFile keep(a);
+			NifFile m(std::move(keep));
+			m.TrimTexturePaths();
+			o.qMoved = Rig::get(m, rig.kind);
+		}
 		std::string bytes2 = saveToString(a, false, false);
 		NifFile b;
 		if (loadFromString(b, bytes2, terrain) != 0) return o;
@@ -177,6 +189,8 @@ Outcome clean(Rig& rig, const std::string& path, bool viaLoad, bool terrain) {
 			// Skyrim SE files only store the source and greyscale textures of an effect shader
 			o.q = {o.q[0], o.q[2]};
 			o.q2 = {o.q2[0], o.q2[2]};
+			if (o.qCopy.size() == 5) o.qCopy = {o.qCopy[0], o.qCopy[2]};
+			if (o.qMoved.size() == 5) o.qMoved = {o.qMoved[0], o.qMoved[2]};
 		}
 	}
 	return o;
@@ -189,6 +203,8 @@ void emit(std::string& out, const char* kind, const char* via, const std::string
 		e.add("e", "clean").add("case", (long long) caseNo).add("kind", kind).add("via", via).add("slot", (long long) i).raw("p", pTok);
 		e.add("np", np).add("ter", ter).raw("q", tokenise(o.q[i], exact)).raw("q2", tokenise(i < o.q2.size() ? o.q2[i] : std::string("?"), exact));
 		e.add("match", match);
+		// (the model-level result is one flag: every relocated model gave the very same paths)
+		e.add("relocatedSame", (o.qCopy.empty() || o.qCopy == o.q) && (o.qMoved.empty() || o.qMoved == o.q));
 		out += e.done() + "\n";
 	}
 }
@@ -223,7 +239,7 @@ int cmdReplay(int argc, char** argv) {
 						if (ter && !viaLoad) continue; // the terrain flag only exists as a load option
 						// Load keeps strings up to the first NUL only for some kinds and very long runs are slow: sample the load leg
 						if (viaLoad && !ter && (k % 7) != 0) continue;
-						Outcome o = clean(*rig, path, viaLoad, ter);
+						Outcome o = clean(*rig, path, viaLoad, ter, ter || (k % 21) == 0);
 						runs++;
 						bool match = !o.q.empty();
 						for (auto& q : o.q)
